@@ -395,6 +395,9 @@ def gen_gc_case(seed, tier):
                     "cycles": ch.pick("config", "cycles", [1, 1, 2]),
                     # a slow disk: simulated seconds consumed per examined bucket (the crawler's time slice is 1 s, so
                     # the cycle then needs several slices), and all buckets crowded into few prefix directories
+                    # the policy reaches the server through tahoe.cfg and the client's own option parsing, in a drawn spelling
+                    "via_config": ch.chance("config", "via_config", 0.4),
+                    "spell_enabled": ch.pick("config", "spell", ["true", "True", "yes", "1", "on"] if enabled else ["false", "False", "no", "0", "off", None]),
                     "bucket_cost": ch.pick("config", "bucket_cost", [0, 0, 0.3, 0.6, 1.2]),
                     "nprefixes": ch.pick("config", "nprefixes", [1024, 1024, 1, 2])},
             "ops": events}
@@ -463,15 +466,52 @@ def execute_gc(case):
     R._now = T - CRAWL_DELAY
     mode = "age" if cfg["mode"].startswith("age") else "cutoff-date"
     cutoff = int(T - cfg["cutoff_age"]) if mode == "cutoff-date" else None
-    ss2 = StorageServer(base, b"\x22" * 20, clock=R,
-                        expiration_enabled=cfg["enabled"], expiration_mode=mode,
-                        expiration_override_lease_duration=cfg["override"],
-                        expiration_cutoff_date=cutoff,
-                        expiration_sharetypes=tuple(cfg["sharetypes"]))
+    if cfg.get("via_config"):
+        # the production path: [storage] expire.* in tahoe.cfg -> _Client.get_anonymous_storage_server() -> StorageServer
+        import time as _t
+        from twisted.application import service
+        from allmydata.node import config_from_string
+        from allmydata.client import _Client
+        lines = ["[storage]", "enabled = true", "storage_dir = %s" % base]
+        if cfg.get("spell_enabled") is not None:
+            lines.append("expire.enabled = %s" % cfg["spell_enabled"])
+        lines.append("expire.mode = %s" % mode)
+        if cfg["override"] is not None:
+            lines.append("expire.override_lease_duration = %d days" % (cfg["override"] // DAY))
+        if mode == "cutoff-date":
+            # a calendar date: the cut-off is the UTC midnight that starts it
+            day_ = _t.strftime("%Y-%m-%d", _t.gmtime(cutoff))
+            cutoff = int(__import__("calendar").timegm(_t.strptime(day_, "%Y-%m-%d")))
+            lines.append("expire.cutoff_date = %s" % day_)
+        lines.append("expire.immutable = %s" % ("true" if "immutable" in cfg["sharetypes"] else "false"))
+        lines.append("expire.mutable = %s" % ("true" if "mutable" in cfg["sharetypes"] else "false"))
+
+        class _NodeStandIn(service.MultiService):
+            STOREDIR = "storage"
+            nodeid = b"\x22" * 20
+            stats_provider = None
+
+            def get_config(self_, *a, **kw):
+                return self_.config.get_config(*a, **kw)
+        node_ = _NodeStandIn()
+        from allmydata import client as client_mod
+        node_.config = config_from_string(os.path.join(base, "nodedir"), "client.port", "\n".join(lines) + "\n",
+                                          _valid_config=client_mod._valid_config())
+        ss2 = _Client.get_anonymous_storage_server(node_)
+        probes_via_config = True
+    else:
+        probes_via_config = False
+        ss2 = StorageServer(base, b"\x22" * 20, clock=R,
+                            expiration_enabled=cfg["enabled"], expiration_mode=mode,
+                            expiration_override_lease_duration=cfg["override"],
+                            expiration_cutoff_date=cutoff,
+                            expiration_sharetypes=tuple(cfg["sharetypes"]))
     ss2.bucket_counter.disownServiceParent()
     lc = ss2.lease_checker
     lc.disownServiceParent()
     probes = {}
+    if probes_via_config:
+        probes["policy-through-tahoe.cfg"] = 1
     cost = cfg.get("bucket_cost", 0)
     if cost:
         orig_pb = lc.process_bucket
